@@ -209,7 +209,8 @@ def machine_spec(draw, profile="general", tier="quick"):
         if draw(st.integers(0, 29)) == 0:
             step["other_executor"] = True
         steps.append(step)
-    return {"tps": tps, "pools": pools, "cpus": cpus, "ram": ram, "over": over, "multi": multi, "pipes": pipes,
+    extra = {"debug_log": True} if draw(st.integers(0, 9)) == 0 else {}
+    return {**extra, "tps": tps, "pools": pools, "cpus": cpus, "ram": ram, "over": over, "multi": multi, "pipes": pipes,
             "steps": steps}
 
 
@@ -887,10 +888,13 @@ class Episode:
 def run_episode(spec):
     out = Outcome()
     ep = Episode(spec, out)
-    try:
+    if spec.get("debug_log"):
+        from verif.runner import package_logging_on
+        out.label("package_logging_on")
+        with package_logging_on():
+            ep.run()
+    else:
         ep.run()
-    except Exception:
-        raise
     s = ep.stats
     out.extra_evals = s["ticks"]
     out.label("pm")
